@@ -216,6 +216,7 @@ def run(run: common.Run):
     run.compare_lines(pcases, plines, pimpl)
     profiles(run)
     cli_several_sources(run)
+    cross_crs_auto(run)
 
 
 def cli_several_sources(run):
@@ -272,6 +273,65 @@ def cli_several_sources(run):
                          f'parameter image has {res_px[0]} m pixels, tag FUSE_PROC_CRS={tag}, file {pfiles[0].name}; expected the '
                          f'{want} grid ({exp_px[0]} m)', signature=dict(kind='cli-several'))
                 break
+
+
+def cross_crs_auto(run):
+    """
+    Source and reference in coordinate systems with different units (UTM metres against geographic degrees): under `auto` the
+    processing grid is still the coarser image *on the ground* - a 10 m source under a 0.001 degree (~100 m) reference is processed
+    on the reference grid, a 100 m source over a 0.0001 degree (~10 m) reference on the source grid; the corrected image keeps the
+    source's CRS, transform and size, and the tags say which grid was used.
+    """
+    import warnings
+    from rasterio.crs import CRS
+    from rasterio.transform import Affine
+    from rasterio.warp import transform_bounds
+    from homonim import RasterFuse
+    from homonim.enums import Model
+    tmp = run.tmpdir()
+    utm, geo = CRS.from_epsg(32735), CRS.from_epsg(4326)
+    rng = run.rng('cross-crs-auto')
+    for k, (sres, rres_deg, want) in enumerate(((10.0, 0.001, 'ref'), (100.0, 0.0001, 'src'), (30.0, 0.001, 'ref'))):
+        sw = sh = 40 if want == 'ref' else 12
+        sx0, sy0 = 500_000.0 + 40 * k, 6_500_000.0
+        st = Affine(sres, 0, sx0, 0, -sres, sy0)
+        l, b, r_, t = transform_bounds(utm, geo, sx0, sy0 - sh * sres, sx0 + sw * sres, sy0, densify_pts=21)
+        m = 6 * rres_deg
+        rx0, ry0 = l - m, t + m
+        rw, rh = int(np.ceil((r_ + m - rx0) / rres_deg)) + 1, int(np.ceil((ry0 - (b - m)) / rres_deg)) + 1
+        rt = Affine(rres_deg, 0, rx0, 0, -rres_deg, ry0)
+        sp, rp = tmp / f'c18x_s{k}.tif', tmp / f'c18x_r{k}.tif'
+        for p_, tr, w_, h_, crs in ((sp, st, sw, sh, utm), (rp, rt, rw, rh, geo)):
+            with rio.open(p_, 'w', driver='GTiff', width=w_, height=h_, count=1, dtype='float32', crs=crs, transform=tr, nodata=float('nan')) as ds:
+                ds.write(np.array([[[rng.randint(20, 200) for _ in range(w_)] for _ in range(h_)]], dtype='float32'))
+        case = dict(i=6_100_000 + k, op='auto grid across CRSs', src_res_m=sres, ref_res_deg=rres_deg, expected=want)
+        try:
+            with warnings.catch_warnings():
+                warnings.simplefilter('ignore')
+                with RasterFuse(sp, rp) as rf:
+                    got = rf.proc_crs.name
+                    rf.process(tmp / f'c18x_o{k}.tif', Model.gain, (1, 1), param_filename=tmp / f'c18x_o{k}_PARAM.tif', overwrite=True,
+                               block_config=dict(threads=1))
+        except Exception as ex:
+            run.fail(case, f'raised {type(ex).__name__}: {ex}', signature=dict(kind='raises'))
+            continue
+        run.evaluations += 1
+        run.hist['auto grid across CRSs'] += 1
+        run.nontrivial.add(('cross-crs-auto', k))
+        with rio.open(tmp / f'c18x_o{k}.tif') as ds, rio.open(tmp / f'c18x_o{k}_PARAM.tif') as pds:
+            tag, ptag = ds.tags().get('FUSE_PROC_CRS'), pds.tags().get('FUSE_PROC_CRS')
+            same_grid = ds.crs == utm and ds.transform == st and (ds.height, ds.width) == (sh, sw)
+            pres = abs(pds.transform.a)
+            pcrs = pds.crs
+        # ground size of a parameter pixel in metres (degrees of longitude at 31.6 S: ~ 94.8 km)
+        pres_m = pres if pcrs == utm else pres * 94_800.0
+        coarser = pres_m > 0.9 * max(sres, rres_deg * 94_800.0)
+        if got != want or tag != want or ptag != want or not coarser:
+            run.fail(case, f'{sres} m source, {rres_deg} deg (~{rres_deg * 94800:.0f} m) reference: auto resolved to {got} (tags {tag} / {ptag}), expected '
+                     f'{want}; parameter pixel ~{pres_m:.1f} m', signature=dict(kind='cross-crs-auto'))
+        elif not same_grid:
+            run.fail(case, f'{sres} m source (UTM 35S), {rres_deg} deg reference (geographic), processing grid {got}: the corrected image does not '
+                     f'have the coordinate system, geo-transform and size of the source', signature=dict(kind='cross-crs-corrected-grid', proc=got))
 
 
 def profiles(run):
